@@ -129,7 +129,7 @@ def cases(chk):
     yield "isspace", {"lo": 0, "hi": 0x3100}
     yield "isspace", {"lo": 0xFE00, "hi": 0xFF10}
     for fmt in ("json", "keyval"):
-        for how in ("path-ext", "path-noext", "profile", "fresh-profile", "dest", "profile-resave", "profile-inplace", "reload-after-resave"):
+        for how in ("path-ext", "path-noext", "profile", "fresh-profile", "dest", "profile-resave", "profile-inplace", "reload-after-resave", "dest-default-type"):
             yield "config", {"fmt": fmt, "how": how, "cfg": {"phone": "491234", "cc": 49, "client_static_keypair": "11" * 64, "pushname": "yo"}}
     yield "config", {"fmt": "keyval", "how": "profile-libsave", "cfg": {"phone": "491234", "cc": 49, "pushname": "yo"}}
     yield "config", {"fmt": "json", "how": "profile-libsave", "cfg": {"phone": "491234", "cc": 49, "pushname": "yo"}}
@@ -185,7 +185,7 @@ def cases(chk):
                 yield "config", {"fmt": fmt, "how": how, "cfg": cfg}
     for _ in range(chk.scale(200, 6000)):
         fmt = r.choice(["json", "keyval"])
-        how = r.choice(["path-ext", "path-noext", "profile", "fresh-profile", "dest", "profile-resave", "profile-both", "profile-inplace", "reload-after-resave"])
+        how = r.choice(["path-ext", "path-noext", "profile", "fresh-profile", "dest", "profile-resave", "profile-both", "profile-inplace", "reload-after-resave", "dest-default-type"])
         # (a profile holding both files is saved in whichever format the library prefers: values from the key=value format's domain)
         yield "config", dict({"fmt": fmt, "how": how, "cfg": gen_config(r, "keyval" if how == "profile-both" else fmt)}, **({"via": r.choice(["profile", "manager"])} if how == "profile-both" else {}))
 
@@ -340,6 +340,18 @@ def run_config(chk, case):
                 loaded = cm.load(name)
             want = canon(cfg, True)
             fmt = "keyval"
+        elif how == "dest-default-type":
+            # an export to an explicit .json path, format left to the library, while a profile of that name exists in the OTHER format: what is
+            # written to the path loads back from the path
+            os.makedirs(pdir, exist_ok=True)
+            oldcfg = build_config({"phone": "491111", "cc": 49, "client_static_keypair": "aa" * 64, "pushname": "old"})
+            with open(os.path.join(pdir, "config.yo" if fmt == "json" else "config.json"), "w") as f:
+                f.write(cm.config_to_str(oldcfg, cm.TYPE_KEYVAL if fmt == "json" else cm.TYPE_JSON))
+            path = os.path.join(pdir, "export.json")
+            cm.save(name, cfg, dest=path)
+            loaded = cm.load(path)
+            want = canon(cfg, False)
+            fmt = "json"
         elif how == "dest":
             os.makedirs(pdir, exist_ok=True)
             path = os.path.join(pdir, "saved" + ext)
